@@ -89,9 +89,11 @@ def fresh(text):
 
 
 COLD_PAIRS = [("f(true, null) and not $x or 1 mod 2", "g(false) or null in [true] and not 2"),
+              ("1 +", "foo(2, x and"),                      # both end too early: each error must talk about its own text
               ("x.y(1, 'a b') >= 2.5", "not true and f(null, 'c d')"),
               ("1 +", "a or not b mod 3"),
-              ("true # 1", "null and f(true)")]
+              ("true # 1", "null and f(true)"),
+              ("[1, 2", "'s' #")]
 
 
 def cold_preemption(rep, quick, rng):
@@ -137,9 +139,10 @@ def cold_preemption(rep, quick, rng):
         for x, y in ((a, b), (b, a)):
             _, _, n = parse_with_preemption(x, y, -1)
             points = list(range(1, n + 1))
-            if quick and len(points) > 45:
-                # lazily initialised state is written early in the first parse: the first lines densely, the rest sampled
-                points = points[:25] + sorted(rng.sample(points[25:], 20))
+            if quick and len(points) > 65:
+                # lazily initialised state is written early in the first parse, error reporting state at its end: both ends
+                # densely, the middle sampled
+                points = points[:25] + sorted(rng.sample(points[25:-25], 15)) + points[-25:]
             for k in points:
                 ra, rb, _ = parse_with_preemption(x, y, k)
                 ran += 1
